@@ -124,7 +124,7 @@ def parse_directive(text):
             if re.match(r"^@header\s*$", ln):
                 d.header = ""
                 continue
-            m = re.match(r"^@rewrite(\??) /(.*)/ => (.*)$", ln)
+            m = re.match(r"^@rewrite(\??) /(.*)/ =>\s?(.*)$", ln)
             if m:
                 d.rewrites.append((m.group(2), m.group(3), m.group(1) == "?"))
                 continue
@@ -274,7 +274,7 @@ def expand_item(kind, text, stats):
     item_rewrites = []
     for ln in text.splitlines():
         m = re.match(r"^@(file|name|nth)\s+(.*?)\s*$", ln)
-        mr = re.match(r"^@rewrite /(.*)/ => (.*)$", ln)
+        mr = re.match(r"^@rewrite /(.*)/ =>\s?(.*)$", ln)
         if m:
             kv[m.group(1)] = m.group(2)
         elif mr:
